@@ -372,7 +372,7 @@ Proof.
     + intros j Hj. apply upd_neq. intros ->. auto.
     + intros m Hm. destruct (S4 m Hm) as (xb & Hxb).
       destruct (nth_opt_snoc (w_models w) (mkModel (w_next w) [] [] []) (N.to_nat m)) as [H|(_ & H & _)]; congruence.
-    + apply FileSame_eq. reflexivity.
+    + split; [apply FileSame_eq; reflexivity|]. unfold Grow; cbn [w_next w_models w_files]. rewrite app_length. cbn. repeat split; lia.
   - intros a [= <-]. exact Hlen.
 Qed.
 
@@ -392,7 +392,8 @@ Proof.
       destruct (nth_opt_snoc (w_files w) (mkFile m name version None) (N.to_nat f)) as [H|(_ & _ & H)]; rewrite H in Hfl.
       * eapply S6; eauto.
       * injection Hfl as <-. exact Hm.
-  - split; [reflexivity|]. split; [reflexivity|]. intros f Hf. subst w1. cbn [w_files]. apply Hold. exact Hf.
+  - split; [reflexivity|]. split; [reflexivity|]. split; [intros f Hf; subst w1; cbn [w_files]; apply Hold; exact Hf|].
+    subst w1. unfold Grow; cbn [w_next w_models w_files]. rewrite app_length. cbn. repeat split; lia.
   - intros Hf. destruct (S5 _ Hf) as (fl & Hfl). apply nth_opt_Some in Hfl. rewrite Nnat.Nat2N.id in Hfl. lia.
 Qed.
 
